@@ -307,6 +307,18 @@ func n1(w *World, r *Report) {
 	if cv1 != nil {
 		cs := w.callsTo(cv1, fref{pkgCT, "Account", "CheckNonce"})
 		ok := len(cs) == 1 && w.canonCall(cs[0].Common(), 0) == "p0.Sender.CheckNonce(p0.Tx.Nonce)"
+		if !ok {
+			// the check sits in a helper: decided on the paths
+			if okG, _ := w.gateHolds(cv1, AR(`^p0\.Sender\.CheckNonce\(p0\.Tx\.Nonce\)$`, "!=", `^nil$`)); okG {
+				r.OK("N-1", "commonValidation1:CheckNonce", "commonValidation1 has no successful path when ctx.Sender.CheckNonce(ctx.Tx.Nonce) reports an error (helpers expanded)", fnSite(w, cv1))
+				r.OK("N-1", "commonValidation1:CheckNonce:error-returned", "see commonValidation1:CheckNonce", fnSite(w, cv1))
+				cv1 = nil
+			}
+		}
+	}
+	if cv1 != nil {
+		cs := w.callsTo(cv1, fref{pkgCT, "Account", "CheckNonce"})
+		ok := len(cs) == 1 && w.canonCall(cs[0].Common(), 0) == "p0.Sender.CheckNonce(p0.Tx.Nonce)"
 		r.Check(ok, "N-1", "commonValidation1:CheckNonce", "the sender's nonce is compared with the transaction's nonce", "commonValidation1 does not check ctx.Sender's nonce against ctx.Tx.Nonce", fnSite(w, cv1))
 		if ok {
 			var g0 *Guard
@@ -338,7 +350,10 @@ func n1(w *World, r *Report) {
 			}
 		}
 		bad := ""
-		if g0 == nil {
+		if okG, _ := w.gateHolds(vt, AR(`^p0\.Sender\.CheckNonce\(p0\.Tx\.Nonce\)$`, "!=", `^nil$`)); g0 == nil && okG {
+			// arranged differently (helpers, a table of steps): no controller and no
+			// success return is reached when the nonce check fails
+		} else if g0 == nil {
 			bad = "no guarded call"
 		} else {
 			for _, b := range vt.Blocks {
@@ -449,7 +464,15 @@ func routingTable(w *World, r *Report, rule string) {
 		if c.Common().IsInvoke() && c.Common().Method.Name() == "ExecuteTrx" {
 			// the controller may be picked by a selection helper: what it returns for this abstract transaction
 			s := w.canonOnPathFallible(c.Common().Value)
-			if len(c.Common().Args) == 1 && w.Canon(c.Common().Args[0]) == "p0" {
+			arg := ""
+			if len(c.Common().Args) == 1 {
+				arg = w.Canon(c.Common().Args[0])
+			}
+			// inside a function literal of runTrx the context is the enclosing function's parameter
+			if f := in.Parent(); f != nil && f.Parent() == run {
+				s, arg = strings.ReplaceAll(s, "^p0", "p0"), strings.ReplaceAll(arg, "^p0", "p0")
+			}
+			if arg == "p0" {
 				return strings.TrimPrefix(s, "p0.")
 			}
 			return "ExecuteTrx(other ctx)"
